@@ -1405,3 +1405,15 @@ def main(tier):
     if witnesses == 0:
         rep.harness_error("no path reached an oracle (vacuous)")
     return rep.finish()
+
+
+def replay_file(path):
+    import json
+
+    with open(path) as f:
+        obj = json.load(f)
+    ok, observed = replay(obj["replay"])
+    print("replay %s: %s -> %s" % (path, "REPRODUCED" if ok else "did not reproduce", observed))
+    if ok:
+        print("VIOLATION property=C05 replay=%s" % path)
+    return 1 if ok else 0
